@@ -29,7 +29,8 @@ var evilPaths = []string{
 	`github.com/u/r@v1.2.3/f.go`, `github.com/u/r"><b>/f.go`, `github.com/u"x/r@v1"2/f".go`, `github.com/u/r@v0.0.0-20200223170610-d5e6a3e2c0ae/d/f.go`,
 	`golang.org/x/net@v0.0.0-20200223170610-d5e6a3e2c0ae/http2/x.go`, `golang.org/x/ne"t<s>/h.go`, `golang.org/y/z/h.go`, `gopkg.in/y.v2@v2.4.0<x>/y.go`,
 	`a/vendor/github.com/"x"/y/z.go`, `a/vendor/golang.org/x/<t>/z.go`, `github.com/onlytwo`, `github.com`, `x/@/`, `@`, `javascript:alert(1)/x.go`,
-	`github.com/u/javascript:alert(2)/x.go`, `github.com/u/r@javascript:alert(3)/x.go`, `github.com/u/r@v1 2/x y.go`, `net/http/server.go`, `runtime/proc.go`,
+	`github.com/u/r@v1.0.0-rc-1/f.go`, `golang.org/x/net@v0.1.0-alpha-2/h.go`, `github.com/u/r@v2.0.0+incompatible/f.go`, `github.com/u/r@v1.2.3-0.20200223170610-d5e6a3e2c0ae/f.go`,
+	`github.com/u/r@v1-2-3/f.go`, `golang.org/x/sys@-/a.go`, `github.com/u/r@/f.go`, `github.com/u/javascript:alert(2)/x.go`, `github.com/u/r@javascript:alert(3)/x.go`, `github.com/u/r@v1 2/x y.go`, `net/http/server.go`, `runtime/proc.go`,
 }
 
 // C17Snap is a JSON-serialisable description of a directly constructed snapshot.
